@@ -317,11 +317,32 @@ func (fr *frame) branchNoFork(cond value, want bool) bool {
 		}
 	} else {
 		c.pos++
-		if c.query(smt) != "sat" {
-			c.decisions = append(c.decisions, 0)
-			return false
+		sat := false
+		if sym != nil {
+			if b, ok := c.evalModel(sym); ok && b == want {
+				sat = true
+			}
+		}
+		if !sat {
+			ok, m := c.querySat(smt)
+			if !ok {
+				c.decisions = append(c.decisions, 0)
+				return false
+			}
+			if m != nil {
+				c.model, c.modelOK = m, true
+			} else {
+				c.modelOK = false
+			}
 		}
 		c.decisions = append(c.decisions, 1)
+	}
+	if sym != nil {
+		if b, ok := c.evalModel(sym); !ok || b != want {
+			c.modelOK = false
+		}
+	} else {
+		c.modelOK = false
 	}
 	c.assertPC(smt)
 	if sym != nil {
